@@ -10,6 +10,7 @@ import (
 
 	"github.com/dcaiafa/lox/internal/base/assert"
 	"github.com/dcaiafa/lox/internal/base/logger"
+	"github.com/dcaiafa/lox/internal/base/set"
 )
 
 const (
@@ -96,6 +97,10 @@ type Grammar struct {
 	Prods         []*Prod
 	EOFTerminal   *Terminal
 	ErrorTerminal *Terminal
+
+	// firstSets caches FIRST of every rule. It is reset whenever the grammar
+	// changes.
+	firstSets map[*Rule]*set.Set[*Terminal]
 }
 
 // NewGrammar creates a new Grammar.
@@ -116,6 +121,7 @@ func NewGrammar() *Grammar {
 // trying to derive. If a Rule is not in the transitive closure of things
 // derivable from the start rule, it will never be derived.
 func (g *Grammar) SetStart(rule *Rule) {
+	g.firstSets = nil
 	g.Prods[0].Terms = []Term{rule}
 }
 
@@ -141,6 +147,7 @@ func (g *Grammar) AddRule(name string) *Rule {
 		Name:  name,
 	}
 	g.Rules = append(g.Rules, r)
+	g.firstSets = nil
 	return r
 }
 
@@ -154,6 +161,7 @@ func (g *Grammar) AddProd(rule *Rule, terms ...Term) *Prod {
 	g.Prods = append(g.Prods, p)
 	rule.Prods = append(rule.Prods, p)
 	p.Terms = append(p.Terms, terms...)
+	g.firstSets = nil
 
 	return p
 }
